@@ -1,3 +1,6 @@
+import math
+
+
 class Expression:
     def __init__(self, begin_pos, end_pos):
         self.begin_pos = begin_pos
@@ -247,7 +250,7 @@ class ConcatenatedAxis(Expression):
         if any(v is None for v in values):
             return None
         else:
-            return np.sum(values)
+            return sum(values)
 
 
 class List(Expression):
@@ -310,7 +313,7 @@ class List(Expression):
         if any(v is None for v in values):
             return None
         else:
-            return np.prod(values)
+            return math.prod(values)
 
 
 class Args(Expression):
